@@ -730,6 +730,12 @@ func (l *lexer) scanOperator(ch rune) (rune, rune) {
 			return ANY_P, l.next()
 		}
 	default:
+		if ch >= utf8.RuneSelf {
+			// No operator is outside ASCII. Don't let the value of the rune
+			// stand in for a token: the token numbers start at 57346, in the
+			// Unicode private use area (U+E002 would be TO_P).
+			return utf8.RuneError, next
+		}
 		return ch, next
 	}
 
